@@ -93,7 +93,7 @@ pub fn run(report: &Report) -> i32 {
         "c01a",
         "proptest-generated transfer scenarios (configs x workloads x per-datagram fault streams x driver schedules); content oracle at every read; non-trivial = data was read AND the observer saw a STREAM range transmitted twice or datagrams delivered out of order; distinct by scenario hash",
         || arb_xfer(g),
-        report.cases(6000, 300_000),
+        report.cases(20_000, 600_000),
         case_a,
     );
     report.finish("generated-input search (proptest) against the stream content model")
